@@ -179,6 +179,8 @@ def run_singles(ctx, n):
         problems, outs, nontrivial, its = run_single(ctx, case)
         items.extend(its)
         ctx.case(case, nontrivial)
+        dd = ctx.extra.setdefault("input_dimensions", {})
+        dd["shape:single-file-target(ROOT)"] = dd.get("shape:single-file-target(ROOT)", 0) + 1
         ctx.count("single:type:" + case["types"][0])
         ctx.count("single:prior:" + ("absent" if case["prior"] is None else case["prior"][1]))
         for sig, what in problems:
